@@ -299,7 +299,7 @@ def json_op(op):
     return "%s(%s)" % ({"n": "addNode", "e": "addEdge", "r": "run_routing_forward", "d": "shortest_distance", "l": "shortest_distance[list]",
                         "a": "all_shortest_distances", "p": "prepare", "q": "prepared_shortest_distance",
                         "h": "has_prepared_shortest_distance", "s": "sub_network", "v": "save_prep+load_prep",
-                        "c": "Network", "m": "setRoutingMethod", "w": "setAStarWeight", "x": "sub_network[kept]"}[op[0]], ",".join(str(x) for x in op[1:]))
+                        "c": "Network", "m": "setRoutingMethod", "w": "setAStarWeight", "x": "sub_network[kept]", "W": "edge.weight="}[op[0]], ",".join(str(x) for x in op[1:]))
 
 
 def dtok(x):
@@ -592,6 +592,8 @@ def extracted_oracle(parent, rec):
 # network that holds its parent's Node objects; a caller may also fill a second Network() with nodes of the first.
 # case: {"kind": "fam", "n": n, "ids": "int"|"str", "ops": [[k, op], ...]}; op = a session op on member k (minus `v`),
 #   ["c"] Network() (member k = number of members so far) · ["x", s, cut, obj] members.append(members[k].sub_network(s, cut))
+#   ["W", eid, w] edge.weight = w on the Edge object of that id (k = a member holding it; an extract holds its parent's Edge
+#   objects, so every member holding the edge sees the new weight). Edge ids are unique in a family: an id names one object.
 # ---------------------------------------------------------------------------------------------------
 def fam_members(case):
     """replays the generator's view of a family: per member its edges and known nodes (an extract's content is predicted
@@ -607,6 +609,14 @@ def fam_members(case):
         if not 0 <= k < len(mem):
             return None
         M = mem[k]
+        if op[0] == "W":
+            if not any(e[0] == op[1] for e in M["edges"]):
+                return None
+            for X in mem:
+                for e in X["edges"]:
+                    if e[0] == op[1]:
+                        e[3] = op[2]
+            continue
         if op[0] == "x":
             d = nc.floyd_warshall(n, M["edges"])
             c = cutval(op[2] if op[2] == "none" else nc.tok(nc.num(op[2])))
@@ -633,7 +643,8 @@ def fam_members(case):
 def fam_valid(case):
     """members are created before they are used; each member's calls form a valid session (known nodes, fresh edge ids)"""
     mem = fam_members(case)
-    return mem is not None and all(sess_valid({"n": case["n"], "ops": M["ops"]}) for M in mem)
+    eids = [op[1] for _, op in case["ops"] if op[0] == "e"]
+    return mem is not None and len(eids) == len(set(eids)) and all(sess_valid({"n": case["n"], "ops": M["ops"]}) for M in mem)
 
 
 def random_family(rng):
@@ -657,10 +668,18 @@ def random_family(rng):
         edge(0, perm[i - 1] if style < 0.6 else perm[rng.randrange(i)], perm[i])
     for _ in range(rng.randint(0, 3)):
         edge(0, rng.randrange(n), rng.randrange(n))
+    prep_heavy = rng.random() < 0.2       # a fifth of the families work mostly with prepared tables (DISTANCES of every member)
     for step in range(rng.randint(6, 30)):
         mem = fam_members(case)
         live = [k for k, M in enumerate(mem) if M["nodes"]]
         r = rng.random()
+        if prep_heavy and live and rng.random() < 0.5:
+            k = rng.choice(live)
+            if rng.random() < 0.3 or not any(o[0] == "p" for o in mem[k]["ops"]):
+                ops.append([k, ["p", cut()]])
+            else:
+                ops.append([k, [rng.choice(["q", "q", "h"]), rng.choice(mem[k]["nodes"]), rng.choice(mem[k]["nodes"]), obj()]])
+            continue
         if r < 0.16 and len(mem) < 5 and live:
             k = rng.choice(live)
             ops.append([k, ["x", rng.choice(mem[k]["nodes"]), xcut(), obj()]])
@@ -672,6 +691,9 @@ def random_family(rng):
             continue
         k = rng.randrange(len(mem)) if rng.random() < 0.3 else (rng.choice(live) if live else 0)
         nodes = mem[k]["nodes"]
+        if mem[k]["edges"] and rng.random() < 0.07:
+            ops.append([k, ["W", rng.choice(mem[k]["edges"])[0], wgt()]])
+            continue
         if not nodes or r < 0.27:
             a = rng.choice(nodes) if nodes and rng.random() < 0.6 else rng.randrange(n)
             edge(k, a, rng.randrange(n))
@@ -683,11 +705,11 @@ def random_family(rng):
             ops.append([k, ["l", rng.choice(nodes), cut(), rng.choice([0, 0, 1]), obj()]])
         elif r < 0.80:
             ops.append([k, ["r", rng.choice(nodes), rng.choice(nodes + [None, None]), cut(), rng.choice([0, 0, 1]), obj()]])
-        elif r < 0.88:
+        elif r < 0.86:
             ops.append([k, ["a", cut(), rng.choice([0, 0, 1])]])
-        elif r < 0.93:
+        elif r < 0.92:
             ops.append([k, ["p", cut()]])
-        elif r < 0.97 and any(o[0] == "p" for o in mem[k]["ops"]):
+        elif r < 0.98 and any(o[0] == "p" for o in mem[k]["ops"]):
             ops.append([k, [rng.choice(["q", "q", "h"]), rng.choice(nodes), rng.choice(nodes), obj()]])
         else:
             ops.append([k, ["s", rng.choice(nodes), xcut(), obj()]])
@@ -729,6 +751,7 @@ class SessRunner:
         self.net = Network() if net is None else net      # `net`: a Network the library returned (sub_network)
         self.mine = {} if mine is None else mine          # the Node objects handed to addNode / addEdge (`mine` given: a pool shared with other networks)
         self.ud = {}            # the caller's dictionary
+        self.epool = {}         # the Edge objects handed to addEdge, by id (impl_fam: one pool for the family)
         self.pos = pos          # node id -> [x, y] (default: (v, 0))
         self.lab = (lambda v: None if v is None else "n%d" % v) if strs else (lambda v: v)
         self.unlab = (lambda x: int(x[1:])) if strs else (lambda x: x)
@@ -766,7 +789,10 @@ class SessRunner:
             e = Edge(op[1], Track())
             e.orientation = op[5]
             e.weight = nc.pynum(op[4])
+            self.epool[op[1]] = e
             net.addEdge(e, self.node(op[2]), self.node(op[3])); r = "ok"
+        elif k == "W":
+            self.epool[op[1]].weight = nc.pynum(op[2]); r = "ok"      # the caller's own Edge object
         elif k == "m":
             net.setRoutingMethod(op[1]); r = "ok"
         elif k == "w":
@@ -882,7 +908,8 @@ class P(Prop):
                 "as pure functions (Model/Graph.lean) and as a state machine over call sequences on one object (Model/GraphSession.lean); "
                 "several Network objects holding the SAME Node objects — what sub_network returns (__sub_network_routing: sub_net.addEdge(e, e.source, e.target)) and what a caller "
                 "obtains by filling two networks from one pool of nodes: one common store of poids / visite / antecedent flags, __resetFlags over the calling network's own NODES only, "
-                "the loop with the explicit priority_dict on whatever the store holds (Model/GraphShared.lean: routeOnPD, execSh, Fam / execFam; the driver's `fam` command runs exactly that); "
+                "the loop with the explicit priority_dict on whatever the store holds; Edge.weight as a live attribute of Edge objects shared by a network and its extracts "
+                "(Model/GraphShared.lean: routeOnPD, execSh, Fam / execFam with setWeight; the driver's `fam` command runs exactly that); "
                 "priority_dict (tracklib/core/utils.py): constructor, __setitem__ with the rebuild threshold, pop_smallest with lazy deletion, len (Model/PDict.lean) "
                 "on top of heapq's heapify / heappush / heappop with _siftdown / _siftup on the list (Model/Heapq.lean); the forward loop over the priority_dict as Model/GraphPD.lean "
                 "(proved equal to the abstract loop)")
@@ -904,7 +931,7 @@ class P(Prop):
             "Families: 1-5 Network objects on ONE pool of 3-8 Node objects — a first network (chain / tree skeleton plus extra edges, weights 0, 1/2, 1, 2, 3), networks returned by "
             "sub_network(s, cut in 0..5 / none) that are KEPT and used like any other network (extracts of extracts too), further Network() objects filled with nodes of the pool; 6-30 calls "
             "interleaved over all members (shortest_distance pair / list form, run_routing_forward with the flags read back, all_shortest_distances, prepare / prepared, sub_network, "
-            "addNode / addEdge on any member). Every member's answers are judged against Floyd-Warshall on its OWN edge list as built so far (an extract: the edges the returned object "
+            "addNode / addEdge on any member, edge.weight = w on an Edge object already in use — seen by every member holding it). Every member's answers are judged against Floyd-Warshall on its OWN edge list as built so far (an extract: the edges the returned object "
             "holds); non-trivial = a distance query on a member after another member has searched (stale foreign labels on shared nodes). "
             "Worlds: 2-3 Network objects (2-5 nodes each, placed on a line, on the corners of a 3k x 4k rectangle, or all at one point, so that every distance is rational), created at "
             "random moments, 8-34 calls interleaved: the session calls above plus setRoutingMethod(0/1) and setAStarWeight(0, 1/2, 1, 3/2, 2) on individual objects; edge weights "
@@ -1090,7 +1117,8 @@ class P(Prop):
                         stale += 1
                     last[k] = i; searched = k
             return {"kind": "fam", "members": min(5, ks.count("c") + ks.count("x")), "extracts": min(3, ks.count("x")),
-                    "search_after_foreign_search": "0" if stale == 0 else "1-3" if stale <= 3 else "4+", "ids": case.get("ids", "int")}
+                    "search_after_foreign_search": "0" if stale == 0 else "1-3" if stale <= 3 else "4+", "ids": case.get("ids", "int"),
+                    "weight_changed": "W" in ks}
         if case["kind"] == "sess":
             ks = [o[0] for o in case["ops"]]
             first_q = next((i for i, k in enumerate(ks) if k not in "ne"), len(ks))
@@ -1225,11 +1253,16 @@ class P(Prop):
         """several Network objects on one pool of Node objects; a network returned by sub_network is kept and used"""
         res = []
         with nc.time_limit(10):
-            runs, pool = [], {}
+            runs, pool, epool = [], {}, {}
             strs = case.get("ids", "int") == "str"
             for k, op in case["ops"]:
                 if op[0] == "c":
                     runs.append(SessRunner(self.mods, strs, mine=pool))
+                    runs[-1].epool = epool
+                    res.append("ok")
+                    continue
+                if op[0] == "W":
+                    epool[op[1]].weight = nc.pynum(op[2])
                     res.append("ok")
                     continue
                 if k >= len(runs):        # a member that does not exist (an extraction before it was not made): as the model, `err`
@@ -1239,6 +1272,7 @@ class P(Prop):
                 res += out
                 if op[0] == "x" and out[0] != "err":
                     runs.append(SessRunner(self.mods, strs, net=runs[k].extracted, mine=pool))
+                    runs[-1].epool = epool
         return {"res": res}
 
     def impl_float(self, case):
@@ -1360,6 +1394,8 @@ class P(Prop):
                     toks.append("%d:c" % k)
                 elif op[0] == "x":
                     toks.append("%d:x,%d,%s" % (k, op[1], "none" if op[2] == "none" else nc.tok(nc.num(op[2]))))
+                elif op[0] == "W":
+                    toks.append("%d:W,%d,%s" % (k, op[1], nc.tok(nc.num(op[2]))))
                 else:
                     sub = self.requests({"kind": "sess", "n": 0, "ops": [op]})[0].split(" ")[2]
                     toks += ["%d:%s" % (k, t) for t in sub.split(";")]
@@ -1656,6 +1692,17 @@ class P(Prop):
                     return "%s: %s" % (what, res[pos] if pos < len(res) else "no result")
                 orcs.append(SessOracle(case["n"]))
                 pos += 1
+                continue
+            if op[0] == "W":
+                if pos >= len(res) or res[pos] != "ok":
+                    return "%s: %s" % (what, res[pos] if pos < len(res) else "no result")
+                pos += 1
+                for o in orcs:      # the Edge object is the same in every network that holds it
+                    hit = [e for e in o.edges if e[0] == op[1]]
+                    for e in hit:
+                        e[3] = op[2]
+                    if hit:
+                        o.ver += 1; o.fw = None
                 continue
             if k >= len(orcs):      # a member that was never created (the extraction before it was not made): nothing to judge
                 pos += 2 if has_dump(op) else 1
